@@ -28,12 +28,14 @@ DefaultShown(it) ==
          [] it.show_default = "format"  -> {"FMT-" \o it.id}
          [] OTHER -> {}
 \* what the user can pass at this level and must therefore be listed
+\* an item without a help text of its own: a named one is listed by its names alone, a positional one is not listed
+HelpTok(it) == IF it.help # "" THEN {it.help} ELSE {}
 MustList(lvl) ==
-  UNION {FirstNames(it) \cup {it.help} \cup (IF it.kind = "arg" THEN {it.metavar} ELSE {})
+  UNION {FirstNames(it) \cup HelpTok(it) \cup (IF it.kind = "arg" THEN {it.metavar} ELSE {})
          \cup (IF it.env # "" THEN {it.env} ELSE {})          \* the variable an item falls back to is shown with it
          \cup DefaultShown(it)                                \* and so is a default the program asked to show
          : it \in {x \in LeavesOf(lvl) : ~Hidden(x)}}
-  \cup UNION {{p.metavar, p.help} : p \in PosItemsOf(lvl)}
+  \cup UNION {{p.metavar, p.help} : p \in {x \in PosItemsOf(lvl) : x.help # ""}}
   \* a command is listed with its help text or, lacking one, with the whole first line of its description
   \cup UNION {{c.names[1]} \cup (IF c.help # "" THEN {c.help} ELSE IF "listed" \in DOMAIN c THEN RangeOf(c.listed) ELSE {})
               : c \in VisibleCmds(lvl)}
@@ -61,10 +63,10 @@ SectionPairs(lvl) ==
                     ELSE IF HasGH(f) THEN GHead(f) ELSE "" IN
          UNION {{<<n, IF HasGH(it) /\ ~IsLeaf(f) THEN GHead(it) ELSE IF own # "" THEN own
                        ELSE IF it.kind = "pos" THEN "positional" ELSE "options">> : n \in FirstNames(it) \cup (IF it.kind = "pos" THEN {it.metavar} ELSE {})}
-                : it \in {x \in FieldLeaves(f) : ~Hidden(x)}}
+                : it \in {x \in FieldLeaves(f) : ~Hidden(x) /\ ~(x.kind = "pos" /\ x.help = "")}}
          : k \in {k \in DOMAIN lvl.named : ~("hidden" \in DOMAIN lvl.named[k] /\ lvl.named[k].hidden)}}
   \cup (IF lvl.tail.kind = "pos"
-        THEN {<<p.metavar, IF HasGH(p) THEN GHead(p) ELSE "positional">> : p \in {x \in RangeOf(lvl.tail.items) : ~Hidden(x)}}
+        THEN {<<p.metavar, IF HasGH(p) THEN GHead(p) ELSE "positional">> : p \in {x \in RangeOf(lvl.tail.items) : ~Hidden(x) /\ x.help # ""}}
         ELSE {})
   \cup {<<c.names[1], IF CmdGroup(lvl) THEN lvl.tail.grouped ELSE "commands">> : c \in VisibleCmds(lvl)}
 \* r.sections : sequence of [head : tokens of the heading line, items : tokens of the item lines below it]
